@@ -159,7 +159,7 @@ Proof.
     split; [eapply InvS_frame; [|exact I]; core|eapply InvP_frame; [| |exact P]; [core|side]].
   - (* EarlyStop *)
     destruct (find_trial t (w_trials w)) as [tr|] eqn:F; [|split; [split; assumption|apply evolves_refl]].
-    destruct (c_es (w_cfg w) && t_is tr TCreated && negb (t_completed tr) && negb (t_deleting tr)) eqn:EG; [|split; [split; assumption|apply evolves_refl]].
+    destruct (c_es (w_cfg w) && t_is tr TCreated && negb (t_completed tr) && negb (t_deleting tr) && match find_job t (w_jobs w) with Some _ => true | None => false end) eqn:EG; [|split; [split; assumption|apply evolves_refl]].
     set (w1 := match v, db_get t (w_db w) with Some z, None => set_db w (w_db w ++ [(t, Some z)]) | _, _ => w end).
     assert (C1 : core_eq w w1) by (unfold w1; destruct v, (db_get t (w_db w)); core).
     assert (S1 : pendings_eq w w1) by (unfold w1; destruct v, (db_get t (w_db w)); side).
@@ -167,7 +167,7 @@ Proof.
     assert (P1 : InvP w1) by (eapply InvP_frame; eauto).
     assert (F1 : find_trial t (w_trials w1) = Some tr) by (destruct C1 as (_&_&_&->&_); exact F).
     assert (NC : t_completed tr = false).
-    { match goal with H : _ && negb (t_completed tr) && _ = true |- _ => apply andb_true_iff in H as [H _]; apply andb_true_iff in H as [_ H]; now apply negb_true_iff in H end. }
+    { match goal with H : _ && negb (t_completed tr) && _ && _ = true |- _ => apply andb_true_iff in H as [H _]; apply andb_true_iff in H as [H _]; apply andb_true_iff in H as [_ H]; now apply negb_true_iff in H end. }
     edestruct (trial_update_inv w1 t) as [I2 E2]; [exact I1|exact F1| | | | |split; [split; [exact I2|]|]]; cbn; auto.
     all: try (repeat split; cbn; auto; try lia; intros k K Hk; unfold t_is in *; cbn [t_conds]; now apply has_cond_app_l).
     all: try (eapply InvP_mono; [exact E2| | | |exact P1]; reflexivity).
@@ -300,7 +300,7 @@ Proof.
               | |- context [if ?x then _ else _] => destruct x
               end; cbn; rewrite ?upd_trial_names by reflexivity; apply incl_refl].
   2: { destruct (find_trial t (w_trials w)) as [tr|]; [|apply incl_refl].
-       destruct (c_es (w_cfg w) && t_is tr TCreated && negb (t_completed tr) && negb (t_deleting tr)); [|apply incl_refl].
+       destruct (c_es (w_cfg w) && t_is tr TCreated && negb (t_completed tr) && negb (t_deleting tr) && match find_job t (w_jobs w) with Some _ => true | None => false end); [|apply incl_refl].
        cbn [w_trials set_trials set_store]. rewrite upd_trial_names by reflexivity.
        destruct v, (db_get t (w_db w)); apply incl_refl. }
   destruct (pending_of w c) as [|[wr onf] rest] eqn:Ep; [apply incl_refl|].
